@@ -443,6 +443,7 @@ COMP_TARGETS = {
 # a file with a second top-level profile after the one that carries the file's name (as shipped: atril, man)
 COMP_TWO = ('st-two', 'abi <abi/4.0>,\n\ninclude <tunables/global>\n\n@{exec_path} = @{bin}/st-two\nprofile st-two @{exec_path} {\n  include <abstractions/base>\n\n  @{exec_path} mr,\n\n  /etc/st-two r,\n\n'
             '  include if exists <local/st-two>\n}\n\nprofile st-two-helper @{bin}/st-two-helper {\n  include <abstractions/base>\n\n  /etc/st-two-helper r,\n\n  include if exists <local/st-two-helper>\n}\n')
+COMP_TARGETS['st-chain3'] = ['include <abstractions/base>', '', '@{exec_path} mr,', '', '/etc/st-chain3 r,', '', '#aa:stack st-chain']      # (fourth hunt) three stacks deep, then st-dir's directives
 COMP_TARGETS['st-guarded'] = ['include <abstractions/base>', '', '@{exec_path} mr,', '', '/etc/st-guarded r,']
 COMP_TARGETS['st-exec-dir'] = ['include <abstractions/base>', '', '@{exec_path} mr,', '', '/etc/st-exec-dir r,', '', '#aa:exec gen-t1']
 # what must / must not be in the output whenever the line is in the host (independent of the real code)
@@ -450,12 +451,13 @@ COMP_EXPECT = {'stack-two': (['/etc/st-two r,', 'include if exists <local/host>'
                'stack-ovw': (['/etc/st-ovw r,'], []), 'exec-ovw': (['/{,usr/}{,s}bin/st-ovw Px,'], []),
                'stack-exec-dir': (['/etc/st-exec-dir r,'], ['/{,usr/}{,s}bin/gen-t1 Px,']),       # a stack without X adds no exec transition
                # (third hunt) a generating directive inside a paragraph that the target's filter removes yields nothing (`~` = substring)
-               'guard-exec': ([], ['~bin/st-guarded Px,']), 'guard-stack': ([], ['/etc/st-guarded r,']), 'guard-dbus': ([], ['~org.example.Guarded']),
+               'guard-exec': ([], ['~bin/st-guarded Px,']), 'guard-stack': ([], ['/etc/st-guarded r,']), 'guard-dbus': ([], ['~org.example.Guarded']), 'guard-dbus-twin': ([], ['~org.example.Guarded', '/etc/host.twin r,']),
                'stack-para': (['/etc/st-para.a r,', '/etc/st-para.b r,', '/etc/st-para.c r,', 'include if exists <local/st-para>'], ['/etc/st-para.guarded r,', '/etc/st-para.guarded2 r,'])}
 COMP_LINES = {
     'stack-dir': '  #aa:stack st-dir',
     'stack-plain': '  #aa:stack st-plain',
     'stack-chain': '  #aa:stack st-chain',
+    'stack-chain3': '  #aa:stack st-chain3',
     'stack-para': '  #aa:stack st-para',
     'stack-exec-dir': '  #aa:stack st-exec-dir',
     'stack-two': '  #aa:stack st-two',
@@ -473,6 +475,8 @@ COMP_LINES = {
     'guard-exec': '  #aa:only apt\n  #aa:exec st-guarded',
     'guard-stack': '  #aa:only apt\n  #aa:stack st-guarded',
     'guard-dbus': '  #aa:exclude arch\n  #aa:dbus own bus=session name=org.example.Guarded',
+    # (fourth hunt) the same generating line in a second paragraph dropped by another guard
+    'guard-dbus-twin': '  #aa:only apt\n  #aa:dbus own bus=session name=org.example.Guarded\n  /etc/host.twin r,',
 }
 
 
@@ -549,7 +553,7 @@ def composition_part(rn, tier, ev, fnd):
             kept = [l for l in mustnot if (any(l[1:] in g for g in got) if l.startswith('~') else l in got) and not (t == 'stack-exec-dir' and 'exec' in s)]     # the host's own `#aa:exec gen-t1` yields that line legitimately
             if lost or kept:
                 what = {'stack-para': 'guarded-paragraph-in-stacked-profile', 'stack-exec-dir': 'exec-directive-in-stacked-profile', 'stack-two': 'stacked-file-with-two-profiles',
-                        'guard-exec': 'generating-directive-in-a-removed-paragraph', 'guard-stack': 'generating-directive-in-a-removed-paragraph', 'guard-dbus': 'generating-directive-in-a-removed-paragraph'}.get(t, 'target-renamed-by-overwrite')
+                        'guard-exec': 'generating-directive-in-a-removed-paragraph', 'guard-stack': 'generating-directive-in-a-removed-paragraph', 'guard-dbus': 'generating-directive-in-a-removed-paragraph', 'guard-dbus-twin': 'generating-directive-in-a-removed-paragraph'}.get(t, 'target-renamed-by-overwrite')
                 fnd.report('composition-%s lost=%d kept=%d' % (what, bool(lost), bool(kept)),
                            '%s: %s: expected lines %s are lost, lines that must not be there %s are' % (where, what, lost, kept),
                            {'text': comp_host(s), 'out': r['out']})
@@ -558,7 +562,7 @@ def composition_part(rn, tier, ev, fnd):
         want = Counter(fixed)
         for t in s:
             want += own[t]
-        if 'stack-chain' in s and 'stack-dir' in s:
+        if sum(t in s for t in ('stack-chain', 'stack-dir', 'stack-chain3')) > 1:
             got, want = Counter(set(got)), Counter(set(want))          # the same profile reaches the host twice
         if got != want:
             kinds = sorted({t.split('-')[0] for t in s})
@@ -584,7 +588,7 @@ def composition_part(rn, tier, ev, fnd):
             fnd.report('composition-directive-survives ' + shape, '%s: %s survive(s) in the output' % (where, left[:3]), {'text': h, 'out': out}); continue
         got = [l.strip() for l in out.split('\n') if l.strip()]
         want = [l.strip() for l in q['out'].split('\n') if l.strip()]
-        if 'stack-chain' in s and 'stack-dir' in s:
+        if sum(t in s for t in ('stack-chain', 'stack-dir', 'stack-chain3')) > 1:
             # the same profile reaches the host twice (directly and through the chain): whether its rules are added
             # once or twice is the same policy -- compared as sets there
             got, want = sorted(set(got)), sorted(set(want))
